@@ -102,7 +102,7 @@ theorem C14_limit_is_peers (cfg : Cfg) (s : St) (op : Op) :
   | setRespTimeout ms => exact .inl rfl
   | acquire => exact .inl rfl
   | register id => exact .inl rfl
-  | release id => exact .inl (releaseIfUsed_mps _ _)
+  | release id => exact .inl (releasePacketId_fr _ _).2
   | erase id => exact .inl (eraseStoredPublish_mps _ _)
   | restoreHandled ids => exact .inl rfl
   | restorePackets ps => exact .inl (restorePackets_fr _ _).2
